@@ -304,4 +304,77 @@ def oldNew (v : Vendor) (sp : Splitter) (gens : List GenDef) : Except RunErr Cfg
     | .error .grammar => .error .grammar
     | .ok c => .ok c
 
+/-! ### the ACL steps of `_old_new_per_device` with a device configuration and a filter ACL (gen.py:207-236) -/
+
+/-- what leaves `_old_new_per_device` for a CLI device -/
+structure OldNew where
+  old : Cfg
+  new : Cfg
+  deriving Inhabited
+
+/-- `old and patching.apply_acl(old, rules)` (gen.py:209, 233): an empty `old` is passed on untouched -/
+def filterOld (v : Vendor) (rules : Rules) : Cfg → Except Err Cfg
+  | .mk [] => .ok (.mk [])
+  | old => applyAcl v false false rules [] old
+
+/-- gen.py:207-236 without `--acl-safe` and annotations.  `noAcl` = `--no-acl`; `exclusive` = not `--no-acl-exclusive`;
+`genAcl` = `syntax.parse_text(res.acl_text())`, compiled even when it is EMPTY (an empty allow-list allows nothing);
+`filter` = `none` when no filter option was given (`build_filter_text` returned `None`), `some rules` when a filter was
+requested — even one that parses to no rule at all. -/
+def aclSteps (v : Vendor) (noAcl exclusive : Bool) (genAcl : List RawRule) (filter : Option (List RawRule))
+    (old new : Cfg) : Except Err OldNew :=
+  let owned : Except Err OldNew :=
+    if noAcl then .ok ⟨old, new⟩
+    else
+      match filterOld v (compileAcl [genAcl]) old with
+      | .error e => .error e
+      | .ok o =>
+        match applyAcl v false exclusive (compileAcl [genAcl]) [] new with
+        | .error e => .error e
+        | .ok n => .ok ⟨o, n⟩
+  match owned with
+  | .error e => .error e
+  | .ok r =>
+    match filter with
+    | none => .ok r
+    | some f =>
+      match filterOld v (compileAcl [f]) r.old with
+      | .error e => .error e
+      | .ok o =>
+        match applyAcl v false false (compileAcl [f]) [] r.new with
+        | .error e => .error e
+        | .ok n => .ok ⟨o, n⟩
+
+/-- `_run_partial_generator` with `use_acl` as a parameter: with `--no-acl` the generator's rows are parsed and kept as
+they are (generators/__init__.py:207: the own-ACL filter is inside `if run_args.use_acl`) -/
+def runPartialU (useAcl : Bool) (v : Vendor) (sp : Splitter) (g : GenDef) : Except RunErr Cfg :=
+  if useAcl then runPartial v sp g
+  else
+    match runGen g.ops with
+    | none => .error (.generator g.name)
+    | some rows =>
+      match parseToTree comments (split sp rows) with
+      | .error n => .error (.parser g.name n)
+      | .ok cfg => .ok cfg
+
+def runPartialsU (useAcl : Bool) (v : Vendor) (sp : Splitter) : List GenDef → List Result → Except RunErr (List Result)
+  | [], acc => .ok acc
+  | g :: rest, acc =>
+    match runPartialU useAcl v sp g with
+    | .error e => .error e
+    | .ok c => runPartialsU useAcl v sp rest (addPartial acc ⟨g.name, g.acl, c⟩)
+
+/-- `_old_new_per_device` for a CLI device whose configuration is `old`: run the generators (`use_acl = not no_acl`),
+then the ACL steps -/
+def oldNewFull (v : Vendor) (sp : Splitter) (gens : List GenDef) (noAcl exclusive : Bool)
+    (filter : Option (List RawRule)) (old : Cfg) : Except RunErr OldNew :=
+  match runPartialsU (!noAcl) v sp gens [] with
+  | .error e => .error e
+  | .ok rs =>
+    match aclSteps v noAcl exclusive (combineAcl rs) filter old (configTree rs) with
+    | .error (.aclError p) => .error (.acl "" p)                      -- not reachable (`fatal = false`)
+    | .error (.notExclusive p ns) => .error (.notExclusive p ns)
+    | .error .grammar => .error .grammar
+    | .ok r => .ok r
+
 end Annet.Gen
